@@ -26,8 +26,9 @@ def passed_in(j):
     return passed
 passed=passed_in(sys.argv[1])
 miss=sorted(want-passed)
-if 0 < len(miss) <= 6:
-    # load-dependent flakes (a 10 s per-test timeout under a busy machine): run the missing tests once more, alone
+for attempt in range(3):
+    if not (0 < len(miss) <= 20): break
+    # load-dependent flakes (10 s per-test timeouts, numerical tests on a busy machine): run the missing tests again, alone
     names=sorted({m.split("::")[-1].split("[")[0] for m in miss})
     j2=sys.argv[1]+".2"
     subprocess.run(["/venv/bin/python","-m","pytest","-q","-p","no:cacheprovider","--timeout=900","--continue-on-collection-errors",
